@@ -1,15 +1,69 @@
 # C15 - flow graph buffering, ordering, joining and limiting nodes keep their contracts.
 #   protocol spec (TLC): flow/Limiter (limiter_node critical sections: my_count / my_tries / my_future_decrement, reserve / consume on the predecessor,
 #       early decrements, 2-3 concurrent forwarders: un-decremented forwarded messages <= threshold, FIFO, no duplicate)
+#   function spec (TLC): flow/ItemBuffer (ring head / tail / capacity / per-slot state, growth with re-placement, reservation of the front, sequencer placement);
+#       every transition of its state graph is replayed on the real reservable_item_buffer<int>, the whole ring compared after each operation, the
+#       returned values validated by TLC against BufAbs (TraceBuf)
 #   abstract spec: flow/FlowAbs ordering clauses (queue: real-time FIFO, sequencer: exactly 0,1,2,... , limiter: forwarded - decremented <= threshold,
 #       joins: queueing / reserving: i-th tuple = i-th message of each port, key_matching: equal keys, each message used once, number of tuples);
 #   real nodes fed by 3 external putters, observed at a serial sink, validated by TLC (TraceFlow).
-import os, vlib, flowlib
+import os, re, json, vlib, flowlib
 SCEN = ['fifo', 'seq0', 'seq1', 'seq2', 'seq3', 'limit1', 'limit2', 'limitL1', 'limitL2', 'joinq', 'joinr', 'joink', 'prio', 'reserve', 'ow', 'wo', 'split', 'indexer']
+
+
+def ring_schedules(cfg, tag):
+    """ItemBuffer state graph -> edge-cover schedules whose tokens carry the operation, its result and the whole projected ring"""
+    os.makedirs(os.path.join(vlib.BUILD, 'graphs'), exist_ok=True)
+    dot = os.path.join(vlib.BUILD, 'graphs', tag + '.dot')
+    r = vlib.tlc(flowlib.SD, 'ItemBuffer', cfg, dump=dot, deadlock=False)
+    vlib.tlc_must_hold(r, cfg)
+    if r.violation:
+        raise vlib.HarnessFailure('ItemBuffer (%s) violates %s' % (cfg, r.violation))
+    nodes, edges, init = vlib.parse_dot(dot, ['lastop', 'lastres', 'head', 'tail', 'cap', 'reserved', 'slot'], raw=True); os.unlink(dot)
+
+    def conv(v):
+        f = v.split('\x1f'); cells = re.findall(r'<<(\w+), (-?\d+)>>', f[6])
+        return ','.join([f[0], f[1], f[2], f[3], f[4], '1' if f[5] == 'TRUE' else '0', '.'.join('n' if st == 'no' else ('h' if st == 'has' else 'r') + it for st, it in cells)])
+    nodes = {k: conv(v) for k, v in nodes.items()}
+    paths, cov, tot = vlib.edge_cover(nodes, edges, init)
+    fn = os.path.join(vlib.BUILD, 'graphs', tag + '.sched')
+    with open(fn, 'w') as f:
+        for p in paths:
+            f.write(' '.join(x[2] for x in p) + '\n')
+    return fn, len(paths), cov, tot, r
+
+
+def ring_replay(res, thorough):
+    """every transition of ItemBuffer replayed on the real reservable_item_buffer<int>; results validated against BufAbs"""
+    exe = vlib.build_harness('h_itembuf', ['flow/h_itembuf.cpp'])
+    drift = 0; ec = et = 0
+    for cfg, limit in (('ItemBuffer_q.cfg', None), ('ItemBuffer_s.cfg', None if thorough else 12000)):
+        tag = 'c15-' + cfg[:-4]
+        fn, npaths, cov, tot, r = ring_schedules(cfg, tag); res.add_tlc(r, 'ItemBuffer:' + cfg)
+        tf = os.path.join(vlib.BUILD, 'traces', tag + '-%d.ndjson' % os.getpid())
+        p = vlib.sh([exe, fn, tf], timeout=1500)
+        if p.returncode != 0:
+            raise vlib.HarnessFailure('h_itembuf failed: %s' % (p.stdout + p.stderr)[-1500:])
+        s = json.loads(p.stdout.strip().splitlines()[-1]); drift += s['drift'] + s['state_mismatch']; ec += cov; et += tot
+        for l in p.stderr.splitlines()[:4]:
+            if l.startswith('SPEC-DRIFT'):
+                print(l)
+        execs = vlib.collect_traces([tf]); os.unlink(fn)
+        if limit:       # the whole graph is replayed and compared; only a slice of the result traces goes through TLC in the quick tier (rejected-first: those that drifted)
+            bad = [t for t in execs if any(e.get('ok') == 0 for e in t)]
+            execs = bad[:200] + execs[:limit]
+        vlib.validate_and_report(res, flowlib.SD, 'TraceBuf', 'TraceBuf.cfg', execs, tag,
+                                 lambda tr: 'results returned by the real item_buffer along a behaviour of ItemBuffer.tla are rejected by BufAbs (an item lost, duplicated, reordered or refused): %s' % json.dumps(tr)[:1200],
+                                 batch=6000, sig_fn=lambda tr, cfg=cfg: 'ring:%s' % cfg[:-4])
+        vlib.log('%s: %d states, %d/%d edges in %d schedules, %d real operations, drift %d' % (tag, r.distinct, cov, tot, npaths, s['steps'], s['drift'] + s['state_mismatch']))
+    res.extra.update({'ring_edges_replayed': ec, 'ring_edges_total': et, 'ring_drift': drift})
+    if drift:
+        print('SPEC-DRIFT property=C15 item_buffer replay: %d paths disagree with ItemBuffer.tla' % drift)
 
 
 def run(res, tier, seed):
     thorough = tier != 'quick'
+    ring_replay(res, thorough)
     for cfg in ['Limiter_1.cfg', 'Limiter_t1.cfg', 'Limiter_big.cfg']:
         vlib.model_check(res, flowlib.SD, 'Limiter', cfg, deadlock=False)
     flowlib.run_scenarios(res, 'C15', SCEN, 60 if not thorough else 2500, seed)
